@@ -1,0 +1,9 @@
+//go:build verif
+
+package tls
+
+// VerifWriteRecord writes one record of the given content type with the
+// connection's current write keys (takes c.out like every other writer).
+func VerifWriteRecord(c *Conn, typ uint8, data []byte) (int, error) {
+	return c.WriteRecord(recordType(typ), data)
+}
